@@ -644,7 +644,7 @@ impl Engine for PaintMonitor {
                     let mut v = vec![0i16; cf.n_axes];
                     for _ in 0..1 + rng.below(2) {
                         let i = rng.usize_below(cf.n_axes);
-                        v[i] = if rng.chance(1, 2) { *rng.pick(&STEPS) } else { rng.below(32769) as i16 - 16384 };
+                        v[i] = if rng.chance(1, 2) { *rng.pick(&STEPS) } else { (rng.below(32769) as i32 - 16384) as i16 };
                     }
                     v
                 }
